@@ -616,3 +616,28 @@ Proof.
       unfold sub. replace (b' - b)%nat with ((f - b) + (b' - f))%nat by lia.
       rewrite firstn_plus. f_equal. rewrite skipn_plus. f_equal. f_equal. lia.
 Qed.
+
+Lemma spans_from_start : forall (rs : list N) (ops : list op),
+  let s := mkSsrc rs false in
+  concat (spans s (0%nat, 0%nat) ops) =
+  encode_all (firstn (fst (snd (srun s (0%nat, 0%nat) ops))) rs).
+Proof.
+  intros rs ops s. pose proof (spans_concat ops rs 0 0 (le_n 0)) as H. cbn zeta in H. fold s in H.
+  destruct (snd (srun s (0%nat, 0%nat) ops)) as [b' f']. destruct H as (_ & _ & H).
+  rewrite H. unfold sub. rewrite Nat.sub_0_r. reflexivity.
+Qed.
+
+Lemma stream_valid_or_empty :
+  forall (n : nat) (ds : list decision) (d : decision) (rs : list N),
+    (1 <= n)%nat -> Forall scalar rs -> Forall (fun c => c <> 0%N) rs ->
+    match rs with
+    | [] => new n (mkReader [] ds d) = Ok None
+    | _ :: _ =>
+      exists i0, new n (mkReader (encode_all rs) ds d) = Ok (Some i0) /\
+        forall fuel, (length rs < fuel)%nat -> next_all fuel i0 = Ok (rs, Some NEOF)
+    end.
+Proof.
+  intros n ds d [|c rs] Hn Hs Hz.
+  - apply new_empty, Hn.
+  - apply stream_valid; try assumption. discriminate.
+Qed.
